@@ -34,6 +34,8 @@ type semSpec struct {
 	Extra func(c *Ctx, sc *semCase, obs map[string]observation)
 	// PerRun is run after each execution of a source (independent oracles on the real observation).
 	PerRun func(c *Ctx, sc *semCase, src string, v semVerdict)
+	// Via: every case is also rendered through a helper that renders the source with its HelperContext.
+	Via bool
 	// Post runs after all cases (model sensitivity runs etc.).
 	Post func(c *Ctx) error
 	// Pre runs further machines before the generator; their cases (other "gen" values) go to Side.
@@ -208,6 +210,17 @@ func semRunCase(c *Ctx, s *semSpec, raw json.RawMessage) {
 			map[string]interface{}{"gen": sc.Gen, "src": srcToks(&sc, mode), "data": sc.Data, "parts": sc.PartsR, "expect": sc.Expect,
 				"shape": sc.Shape, "source_text": src, "observed": v.Obs})
 	}
+	if s.Via && sc.Expect.K != "unspec" {
+		for mode, src := range sc.sources() {
+			v := runSemVia(&sc, src, s.CheckLog, true)
+			if v.Sig != "" && !strings.HasPrefix(v.Sig, "panic") && v.Sig != "hang" {
+				c.Fail("via-helper:"+v.Sig+":"+sc.Shape, fmt.Sprintf("%s  [%s, rendered by a helper with its HelperContext]: %s", src, mode, v.Msg),
+					map[string]interface{}{"gen": sc.Gen, "src": srcToks(&sc, mode), "data": sc.Data, "parts": sc.PartsR, "expect": sc.Expect, "shape": sc.Shape, "source_text": src, "via_helper": true, "observed": v.Obs})
+			} else if v.Sig != "" {
+				c.Drift("via-helper:" + v.Sig)
+			}
+		}
+	}
 	if s.Extra != nil {
 		s.Extra(c, &sc, obs)
 	}
@@ -222,7 +235,7 @@ func srcToks(sc *semCase, mode string) []string {
 
 func init() {
 	registerSem(semSpec{
-		ID: "C08", Module: "GenLoops", CheckLog: false,
+		ID: "C08", Module: "GenLoops", CheckLog: false, Via: true,
 		Quick:    []semRun{{Cfg: "GenLoops.quick.cfg", Workers: 8}, {Module: "EvalCtl", Cfg: "EvalCtl.loops.cfg", Workers: 8}},
 		Thorough: []semRun{{Cfg: "GenLoops.thorough.cfg", Workers: 12}, {Module: "EvalCtl", Cfg: "EvalCtl.loops5.cfg", Workers: 12}},
 		Post:     evalCtlSensitivity("breakdrops"),
@@ -237,7 +250,7 @@ func init() {
 		Rule:     "GenFuncs.tla: functions of 0..MaxParams parameters whose bodies are if/return decision chains (conditions: parameter truthy / falsy / equal to another parameter; results: a parameter or a literal; a probe after every link and after the final return) x every argument tuple over a pool that includes caller variables named like the callee's parameters x six uses of the result (emit, condition, ==, let, argument of a Go helper, call through a parameter of a higher-order function). TLC checks ChainTheorem (value of the call = declarative first-match reading of the chain; probes after the first return reached never run; scope depth restored). Real plush must render the model's output and record the model's probe sequence. distinct_nontrivial = distinct (use, arity, chain length) shapes with specified outcome.",
 	})
 	registerSem(semSpec{
-		ID: "C09", Module: "GenScopes", CheckLog: false, TraceCtx: 400,
+		ID: "C09", Module: "GenScopes", CheckLog: false, TraceCtx: 400, Via: true,
 		Quick:    []semRun{{Cfg: "GenScopes.quick.cfg", Workers: 8}},
 		Thorough: []semRun{{Cfg: "GenScopes.thorough.cfg", Workers: 12}},
 		Rule:     "GenScopes.tla: every nesting up to MaxDepth of {for, user-function call, partial, contentFor/contentOf with data, block helper with own context} x {the construct itself binds the outer name x, a let in its body binds x}; every level binds a fresh name y_i and probes x and an outer-only name t inside, and x and y_i after the level ends. TLC checks ScopeTheorem (stack depth restored, top scope's x and t unchanged, no y_i leaked) and ProbeTheorem (probe text = declarative expectation) on the reference semantics; real plush must render the same probe output. Direction 2: the context constructions/writes the real evaluator performs while rendering these programs are recorded by the verif hooks and validated by TLC against ContextTrace.tla. distinct_nontrivial = distinct nesting shapes.",
